@@ -1545,6 +1545,9 @@ def lower_getitem_at_partitioned(context, builder, sig, args):
             builder, ValueError, ("slice index out of bounds",)
         )
 
+    # from here on, a position in the whole array (the view may start after 0)
+    atval = builder.add(atval, partviewproxy.start)
+
     localstart = partviewtype.lower_get_localstart(
         context, builder, partviewproxy.stops, builder.load(partviewproxy.partitionid)
     )
